@@ -183,3 +183,70 @@ CONTRACTS.append(Contract(
     raises={'Error': Raises(post=[('owned-list-unchanged', f'{OWNED} == old({OWNED})')]),
             'ValueError': Raises(post=[('owned-list-unchanged', f'{OWNED} == old({OWNED})')])},
 ))
+
+# _create_filter: same ownership discipline; additionally an existing instance with the same Name is never adopted
+# or overwritten: the call raises ALREADY_EXISTS before anything is created.
+CLASS_SPECS.update({'CIMProperty': {'value': Str}})
+enum_c = Contract('pywbem/_cim_operations.py::WBEMConnection.EnumerateInstances', returns=ListOf(('ref', 'CIMInstance')),
+                  raises={'CIMError': Raises(), 'ConnectionError': Raises()}, trusted=True)
+props_get_c = Contract('external::NocaseDict.get', sig=['self', 'key', 'default=None'], returns=Opt(Ref('CIMProperty')),
+                       trusted=True, notes='A-CIMOBJ: properties.get(name, None) yields the property or None')
+CLASS_SPECS['CIMInstance']['properties'] = Ref('NocaseDict')
+MANAGER_F = Obj('WBEMSubscriptionManager', _owned_filters=Rec(s1=ListOf(('ref', 'CIMInstance'))),
+                _systemnames=Rec(s1=Str), _subscription_manager_id=Str)
+OWNEDF = "self._owned_filters['s1']"
+CONTRACTS.append(Contract(
+    K + '_create_filter',
+    params={'self': MANAGER_F, 'server_id': Lit('s1'), 'source_namespaces': Opt(ListOf('str')), 'query': Str,
+            'query_language': Str, 'filter_id': Opt(Str), 'name': Opt(Str), 'source_namespace': Opt(Str)},
+    # add_filter() passes exactly one of filter_id (owned) and name (permanent)
+    requires=['(filter_id is None) != (name is None)'],
+    ghosts={'g_srv': SERVER},
+    callees={'_get_server': get_server_c, 'CreateInstance': create_c, 'GetInstance': get_c, 'EnumerateInstances': enum_c,
+             'CIMInstance.__init__': inst_init_c, 'CIMInstance.__setitem__': inst_setitem_c, 'get': props_get_c},
+    opaque=['CIMInstance'],
+    loops={1: LoopSpec(target='inst', types={'inst': Ref('CIMInstance'), 'name_prop': Opt(Ref('CIMProperty'))})},
+    ensures=[('owned-list-grows-exactly-by-what-this-call-created-in-the-server',
+              f'len({OWNEDF}) - old(len({OWNEDF})) == '
+              f'(g_srv.conn._g_created - old(g_srv.conn._g_created) if filter_id is not None else 0)'),
+             ('exactly-one-instance-created', 'g_srv.conn._g_created == old(g_srv.conn._g_created) + 1'),
+             ('earlier-entries-untouched', f'{OWNEDF}[:old(len({OWNEDF}))] == old({OWNEDF})'),
+             ('the-new-entry-is-the-returned-instance',
+              f'implies(len({OWNEDF}) > old(len({OWNEDF})), {OWNEDF}[-1] is result)')],
+    raises={'CIMError': Raises(post=[('owned-list-unchanged', f'{OWNEDF} == old({OWNEDF})')]),
+            'ConnectionError': Raises(post=[('owned-list-unchanged', f'{OWNEDF} == old({OWNEDF})')]),
+            'ValueError': Raises(post=[('owned-list-unchanged', f'{OWNEDF} == old({OWNEDF})')])},
+))
+
+parse_url_c = Contract('pywbem/_cim_http.py::parse_url', returns=TupleOf(Str, Str, Str), raises={'ValueError': Raises()},
+                       trusted=True, notes='returns (scheme, hostport, url) or raises ValueError')
+inst_getitem_c = Contract('pywbem/_cim_obj.py::CIMInstance.__getitem__', returns=Ref('object'), raises={'KeyError': Raises()},
+                          trusted=True, notes="inst['P'] is the property value or KeyError")
+MANAGER_D = Obj('WBEMSubscriptionManager', _owned_destinations=Rec(s1=ListOf(('ref', 'CIMInstance'))),
+                _systemnames=Rec(s1=Str), _subscription_manager_id=Str)
+OWNEDD = "self._owned_destinations['s1']"
+CONTRACTS.append(Contract(
+    K + '_create_destination',
+    params={'self': MANAGER_D, 'server_id': Lit('s1'), 'dest_url': Str, 'owned': Bool, 'destination_id': Opt(Str),
+            'name': Opt(Str), 'persistence_type_value': Int},
+    requires=['persistence_type_value == 2 or persistence_type_value == 3',
+              '(destination_id is not None) if owned else (name is not None)'],
+    ghosts={'g_srv': SERVER},
+    callees={'_get_server': get_server_c, 'CreateInstance': create_c, 'GetInstance': get_c, 'EnumerateInstances': enum_c,
+             'CIMInstance.__init__': inst_init_c, 'CIMInstance.__setitem__': inst_setitem_c, 'get': props_get_c,
+             'parse_url': parse_url_c, 'CIMInstance.__getitem__': inst_getitem_c},
+    opaque=['CIMInstance', 'Uint16'],
+    loops={1: LoopSpec(target='inst', types={'inst': Ref('CIMInstance'), 'name_prop': Opt(Ref('CIMProperty'))}),
+           2: LoopSpec(target='inst', types={'inst': Ref('CIMInstance')})},
+    ensures=[('owned-list-grows-exactly-by-what-this-call-created-in-the-server',
+              f'len({OWNEDD}) - old(len({OWNEDD})) == (g_srv.conn._g_created - old(g_srv.conn._g_created) if owned else 0)'),
+             ('earlier-entries-untouched', f'{OWNEDD}[:old(len({OWNEDD}))] == old({OWNEDD})'),
+             ('the-new-entry-is-the-returned-instance',
+              f'implies(len({OWNEDD}) > old(len({OWNEDD})), {OWNEDD}[-1] is result)')],
+    raises={'CIMError': Raises(post=[('owned-list-unchanged', f'{OWNEDD} == old({OWNEDD})')]),
+            'ConnectionError': Raises(post=[('owned-list-unchanged', f'{OWNEDD} == old({OWNEDD})')]),
+            'ValueError': Raises(post=[('owned-list-unchanged', f'{OWNEDD} == old({OWNEDD})')]),
+            'KeyError': Raises(post=[('owned-list-unchanged', f'{OWNEDD} == old({OWNEDD})')])},
+    notes="KeyError: inst['PersistenceType'] of an owned destination that has no such property (instances discovered "
+          "by add_server from a server that did not set it) - documented here, not a finding of this property",
+))
